@@ -52,6 +52,7 @@ type File struct {
 	role    int // roleIn, roleOut, roleErr, roleOther
 	data    []byte
 	rpos    int
+	wpos    int // write offset (regular files; streams only append)
 	written int
 	closed  bool
 	rng     uint64
@@ -193,6 +194,47 @@ func Create(name string) (*File, error) {
 	w.Files[name] = []byte{}
 	w.OutFile = name
 	return &File{name: name, role: roleOut}, nil
+}
+
+// OpenFile mirrors os.OpenFile for the flag combinations a tool like pigeon
+// can use: read-only opens behave like Open, anything that can write behaves
+// like a creation of the output file and honours O_CREATE, O_EXCL, O_TRUNC and
+// O_APPEND against the content the file already has.
+func OpenFile(name string, flag int, perm fs.FileMode) (*File, error) {
+	const accMode = syscall.O_RDONLY | syscall.O_WRONLY | syscall.O_RDWR
+	if flag&accMode == syscall.O_RDONLY && flag&syscall.O_CREAT == 0 {
+		return Open(name)
+	}
+	if w.Exited {
+		return nil, &fs.PathError{Op: "open", Path: name, Err: syscall.EACCES}
+	}
+	if w.F.OutCreateErr != "" {
+		w.Fired.OutCreateErr = true
+		return nil, &fs.PathError{Op: "open", Path: name, Err: errno(w.F.OutCreateErr, syscall.EACCES)}
+	}
+	if w.Dirs[name] {
+		return nil, &fs.PathError{Op: "open", Path: name, Err: syscall.EISDIR}
+	}
+	old, exists := w.Files[name]
+	switch {
+	case !exists && flag&syscall.O_CREAT == 0, name == "":
+		return nil, &fs.PathError{Op: "open", Path: name, Err: syscall.ENOENT}
+	case exists && flag&syscall.O_CREAT != 0 && flag&syscall.O_EXCL != 0:
+		return nil, &fs.PathError{Op: "open", Path: name, Err: syscall.EEXIST}
+	}
+	f := &File{name: name, role: roleOut}
+	if exists && flag&syscall.O_TRUNC == 0 {
+		f.data = append([]byte(nil), old...)
+		if flag&syscall.O_APPEND != 0 {
+			f.wpos = len(f.data)
+		}
+	}
+	w.Files[name] = f.data
+	if f.data == nil {
+		w.Files[name] = []byte{}
+	}
+	w.OutFile = name
+	return f, nil
 }
 
 // ReadFile mirrors os.ReadFile.
